@@ -479,7 +479,7 @@ theorem setType_okA {rank0 : SlabID → Nat} {w : World} {p : SlabID} {ty : Nat}
     (h : w.setType p ty cx = .ok (w', cx')) :
     WorldOk D w' cx'.ctr ∧ cx.ctr ≤ cx'.ctr ∧
       (∃ c c', w.cont? p = some c ∧ w'.cont? p = some c' ∧ c'.storedElems = c.storedElems ∧ c'.vid = c.vid) ∧
-      HandleOk w' p ∧ SigFrame w w' p ∧ OpFrame rank0 w w' p (Moved none none) := by
+      HandleOk w' p ∧ ContsSig w w' ∧ OpFrame rank0 w w' p (Moved none none) := by
   unfold setType at h
   split at h
   · rename_i a hpa
@@ -509,7 +509,7 @@ theorem setType_okA {rank0 : SlabID → Nat} {w : World} {p : SlabID} {ty : Nat}
         exact this.get_some : ∃ cp3, w'.cont? p = some cp3 ∧ Cont.SameData (.arr (a.setType ty cx).1) cp3)
       refine ⟨⟨rank0, H3⟩, by omega, ⟨_, cp3, hpa, hcp3, hsd3.storedElems, hsd3.vid⟩,
         hhand1.transfer (fun q y => (F3.sig.holds_iff q y).mp) F3.cur,
-        (sigFrame_setCont _ _ _).trans (SigFrame.of_sig F3.sig p),
+        hS.trans F3.sig,
         fun z hz hrk _ => ⟨?_, ?_⟩, fun q y _ => ?_, fun z hzh _ => ?_⟩
       · rw [F3.above z hz hrk, cont?_setCont_ne _ _ _ _ hz]
       · rw [F3.hinfo z hz hrk]; rfl
@@ -519,7 +519,7 @@ theorem setType_okA {rank0 : SlabID → Nat} {w : World} {p : SlabID} {ty : Nat}
             (fun q y => (F3.sig.holds_iff q y).mp) F3.cur
     · cases h
       exact ⟨⟨rank0, by rw [hctr]; exact H1⟩, by omega, ⟨_, _, hpa, cont?_setCont_self _ _ _, rfl, rfl⟩, hhand1,
-        sigFrame_setCont _ _ _, fun z hz _ _ => ⟨cont?_setCont_ne _ _ _ _ hz, rfl⟩, fun _ _ _ => rfl,
+        hS, fun z hz _ _ => ⟨cont?_setCont_ne _ _ _ _ hz, rfl⟩, fun _ _ _ => rfl,
         fun z hzh _ => hzh.transfer (fun q y => (hS.holds_iff q y).mp)
           (CurKept.of_sig hS (fun _ _ => rfl) (fun _ _ hy _ => hy))⟩
   · rename_i m hpm
@@ -549,7 +549,7 @@ theorem setType_okA {rank0 : SlabID → Nat} {w : World} {p : SlabID} {ty : Nat}
         exact this.get_some : ∃ cp3, w'.cont? p = some cp3 ∧ Cont.SameData (.map (m.setType ty cx).1) cp3)
       refine ⟨⟨rank0, H3⟩, by omega, ⟨_, cp3, hpm, hcp3, hsd3.storedElems, hsd3.vid⟩,
         hhand1.transfer (fun q y => (F3.sig.holds_iff q y).mp) F3.cur,
-        (sigFrame_setCont _ _ _).trans (SigFrame.of_sig F3.sig p),
+        hS.trans F3.sig,
         fun z hz hrk _ => ⟨?_, ?_⟩, fun q y _ => ?_, fun z hzh _ => ?_⟩
       · rw [F3.above z hz hrk, cont?_setCont_ne _ _ _ _ hz]
       · rw [F3.hinfo z hz hrk]; rfl
@@ -559,7 +559,7 @@ theorem setType_okA {rank0 : SlabID → Nat} {w : World} {p : SlabID} {ty : Nat}
             (fun q y => (F3.sig.holds_iff q y).mp) F3.cur
     · cases h
       exact ⟨⟨rank0, by rw [hctr]; exact H1⟩, by omega, ⟨_, _, hpm, cont?_setCont_self _ _ _, rfl, rfl⟩, hhand1,
-        sigFrame_setCont _ _ _, fun z hz _ _ => ⟨cont?_setCont_ne _ _ _ _ hz, rfl⟩, fun _ _ _ => rfl,
+        hS, fun z hz _ _ => ⟨cont?_setCont_ne _ _ _ _ hz, rfl⟩, fun _ _ _ => rfl,
         fun z hzh _ => hzh.transfer (fun q y => (hS.holds_iff q y).mp)
           (CurKept.of_sig hS (fun _ _ => rfl) (fun _ _ hy _ => hy))⟩
   · cases h
